@@ -349,7 +349,7 @@ func observed(sig, hints map[string]string, sc replay.Script, rep *replay.Result
 				return true, ""
 			}
 			why = "returned " + o.ValueID
-		case "argument-differs", "unneeded-provider-invoked", "provider-invoked-twice", "needed-provider-skipped":
+		case "argument-differs", "unneeded-provider-invoked", "provider-invoked-twice", "needed-provider-skipped", "needed-provider-never-invoked":
 			n := 0
 			for _, l := range o.Log {
 				if strings.HasPrefix(l, "args "+hints["_prov"]+" ") {
@@ -368,7 +368,7 @@ func observed(sig, hints map[string]string, sc replay.Script, rep *replay.Result
 				if n > 1 {
 					return true, ""
 				}
-			case "needed-provider-skipped":
+			case "needed-provider-skipped", "needed-provider-never-invoked":
 				if n == 0 && o.Returned && (o.Err == "nil" || o.Err == "none") {
 					return true, ""
 				}
